@@ -18,7 +18,7 @@ import hashlib
 import json
 import math
 import warnings
-from typing import Any, Dict, List, Optional, Tuple
+from typing import Any, Dict, List, Tuple
 
 import torch
 import torch.nn as nn
@@ -277,30 +277,36 @@ def _is_batched(t: torch.Tensor) -> bool:
 
 
 def safe_deepcopy(m: nn.Module) -> Tuple[nn.Module, List[str]]:
-    """copy.deepcopy(m) with (a) non-leaf tensors held in buffers / attributes (e.g. the theta_alpha written by a
-    grad-enabled forward) temporarily replaced by their detached selves and (b) dead functorch BatchedTensors
-    (left by a vmap'ed cost function in a module's __dict__) temporarily removed.  The original object is restored
-    exactly (same tensor objects).  Returns (copy, names of the attributes of kind (b))."""
-    swapped = []
+    """copy.deepcopy(m) that also works when the object holds (anywhere, also nested in containers) non-leaf tensors
+    (e.g. the theta_alpha written by a grad-enabled forward: copied as detached clones) or dead functorch
+    BatchedTensors (left by a vmap'ed cost function in a module's __dict__: copied as None).  The live object is not
+    touched.  Returns (copy, names of the attributes holding dead BatchedTensors)."""
     dirty = []
     for mn, mod in m.named_modules():
-        for store in (mod._buffers, mod.__dict__):
-            for k, v in list(store.items()):
-                if isinstance(v, torch.Tensor) and not isinstance(v, nn.Parameter):
-                    if _is_batched(v):
-                        swapped.append((store, k, v))
-                        store[k] = None
-                        dirty.append(f"{type(mod).__name__}.{k}")
-                    elif v.grad_fn is not None:
-                        swapped.append((store, k, v))
-                        store[k] = v.detach()
+        for k, v in list(mod.__dict__.items()):
+            if isinstance(v, torch.Tensor) and _is_batched(v):
+                dirty.append(f"{type(mod).__name__}.{k}")
+    orig = torch.Tensor.__deepcopy__
+
+    def patched(self, memo):
+        if id(self) in memo:
+            return memo[id(self)]
+        if _is_batched(self):
+            memo[id(self)] = None
+            return None
+        if self.grad_fn is not None and not isinstance(self, nn.Parameter):
+            r = self.detach().clone()
+            memo[id(self)] = r
+            return r
+        return orig(self, memo)
+
+    torch.Tensor.__deepcopy__ = patched
     try:
         with warnings.catch_warnings():
             warnings.simplefilter("ignore")
             c = copy.deepcopy(m)
     finally:
-        for store, k, v in swapped:
-            store[k] = v
+        torch.Tensor.__deepcopy__ = orig
     return c, sorted(set(dirty))
 
 
@@ -326,6 +332,15 @@ class Ids:
         if space == "out":
             self.outs.setdefault(i, t.clone())
         return i
+
+    def out(self, t: torch.Tensor) -> Tuple[int, int]:
+        """(cluster id, exact id) of an output tensor: the cluster id is the exact id of the first tensor seen that
+        is equal to this one up to float round-off (TOL), so equality of cluster ids = 'equal to round-off'"""
+        x = self.tensor("out", t)
+        for j in sorted(self.outs):
+            if j <= x and self.out_close(j, x):
+                return j, x
+        return x, x
 
     def out_close(self, i: int, j: int) -> bool:
         """two output ids denote tensors equal to float round-off"""
@@ -397,54 +412,6 @@ def theta_class(kind: str, m) -> str:
     return "hard" if onehot else "soft"
 
 
-def fingerprint(kind: str, m, x: torch.Tensor, ids: Ids) -> Dict[str, Any]:
-    """Observer-neutral observation of a NAS model.  Read-only facts from the live object first; everything that runs
-    code of the model (forward in the current modes, forward in eval mode, cost, summary) on a faithful copy."""
-    rng0 = torch.get_rng_state()
-    sd = m.state_dict()
-    nas = nas_names(m)
-    pnames = {n for n, _ in m.named_parameters()}
-    par_net = _hash_items((k, v) for k, v in sd.items() if k in pnames and k not in nas)
-    par_nas = _hash_items((k, v) for k, v in sd.items() if k in pnames and k in nas)
-    buf_bn = _hash_items((k, v) for k, v in sd.items() if k not in pnames and
-                         k.rsplit(".", 1)[-1] in ("running_mean", "running_var", "num_batches_tracked"))
-    buf_th = _hash_items((k, v) for k, v in sd.items() if k not in pnames and k.rsplit(".", 1)[-1] == "theta_alpha")
-    buf_other = _hash_items((k, v) for k, v in sd.items() if k not in pnames and
-                            k.rsplit(".", 1)[-1] not in ("running_mean", "running_var", "num_batches_tracked",
-                                                         "theta_alpha"))
-    keys = _hash_items((k, torch.zeros(0)) for k in sd.keys())
-    nbt = [int(v) for k, v in sd.items() if k.endswith("num_batches_tracked")]
-    flags = [bool(mod.training) for mod in m.modules()]
-    seedflags = [bool(mod.training) for mod in m.seed.modules()]
-    rg = [bool(p.requires_grad) for p in m.parameters()]
-    fp: Dict[str, Any] = {
-        "pnet": ids.of("pnet", par_net), "pnas": ids.of("pnas", par_nas),
-        "bbn": ids.of("bbn", buf_bn), "bth": ids.of("bth", buf_th), "bother": ids.of("bother", buf_other),
-        "keys": ids.of("keys", keys),
-        "nbt": max(nbt) if nbt else 0,
-        "wt": bool(m.training),
-        "st": "T" if all(seedflags) else "F" if not any(seedflags) else "mixed",
-        "flags": ids.of("flags", json.dumps(flags)),
-        "rg": ids.of("rg", json.dumps(rg)),
-        "theta": theta_class(kind, m),
-    }
-    c, dirty = safe_deepcopy(m)
-    fp["dirty"] = dirty
-    with torch.no_grad():
-        y = c(x)                                     # in the modes the model is in
-        fp["out"] = ids.tensor("out", y)
-        fp["cost"] = ids.of("cost", json.dumps([v.hex() if math.isfinite(v) else str(v) for v in cost_values(c)]))
-        fp["costfin"] = all(math.isfinite(v) for v in cost_values(c))
-        fp["sum"] = ids.of("sum", json.dumps(jsonable(c.summary())))
-    c2, _ = safe_deepcopy(m)
-    with torch.no_grad():
-        c2.eval()
-        fp["oute"] = ids.tensor("out", c2(x))
-    torch.set_rng_state(rng0)
-    fp["rng"] = ids.of("rng", hashlib.sha1(rng0.numpy().tobytes()).hexdigest())
-    return fp
-
-
 def export_fingerprint(e: nn.Module, x: torch.Tensor, ids: Ids) -> Dict[str, Any]:
     """exported network: structure (module tree with types and hyper-parameters), weights, eval-mode output"""
     struct = []
@@ -457,12 +424,511 @@ def export_fingerprint(e: nn.Module, x: torch.Tensor, ids: Ids) -> Dict[str, Any
         struct.append([n, type(mod).__name__, hp])
     code = getattr(e, "code", "")
     rng0 = torch.get_rng_state()
-    e2 = copy.deepcopy(e)
+    e2, _ = safe_deepcopy(e)
     e2.eval()
     with torch.no_grad():
         y = e2(x)
     torch.set_rng_state(rng0)
+    cl, ex = ids.out(y)
     return {"struct": ids.of("xstruct", json.dumps(struct) + code),
             "sd": ids.of("xsd", _hash_items(e.state_dict().items())),
-            "out": ids.tensor("out", y),
+            "out": cl, "outx": ex,
             "tr": bool(e.training)}
+
+
+# ----------------------------------------------------------------------------------------------
+# C18: executor of call sequences (full run + run with the observer calls erased)
+# ----------------------------------------------------------------------------------------------
+OBSERVER_OPS = ("export", "summary", "cost", "getcost")
+NO_RET = {"k": "none", "a": 0, "b": 0, "c": 0}
+
+
+def _settle(kind: str, m, x: torch.Tensor, wseed: int) -> None:
+    """generic architectural coefficients + "the usual forward pass" in the initial mode"""
+    perturb_nas(kind, m, wseed)
+    m(x)
+
+
+def bn_live(m, xf: torch.Tensor) -> bool:
+    """does a training-mode forward pass update BatchNorm statistics? (probed on a copy; fold_bn / MPS: no)"""
+    c, _ = safe_deepcopy(m)
+    before = [int(v) for k, v in c.state_dict().items() if k.endswith("num_batches_tracked")]
+    c.train()
+    with torch.no_grad():
+        c(xf)
+    after = [int(v) for k, v in c.state_dict().items() if k.endswith("num_batches_tracked")]
+    return before != after
+
+
+def _costv_ids(vals: List[float], ids: Ids) -> List[int]:
+    return [ids.of("costv", v.hex() if math.isfinite(v) else str(v)) for v in vals]
+
+
+def observe(kind: str, m, x: torch.Tensor, ids: Ids, cs: str) -> Dict[str, Any]:
+    """fingerprint + bookkeeping fields of the trace format"""
+    rng0 = torch.get_rng_state()
+    sd = m.state_dict()
+    nas = nas_names(m)
+    pnames = {n for n, _ in m.named_parameters()}
+    tail = lambda k: k.rsplit(".", 1)[-1]
+    BN = ("running_mean", "running_var", "num_batches_tracked")
+    groups = {
+        "pnet": [(k, v) for k, v in sd.items() if k in pnames and k not in nas],
+        "pnas": [(k, v) for k, v in sd.items() if k in pnames and k in nas],
+        "bbn": [(k, v) for k, v in sd.items() if k not in pnames and tail(k) in BN],
+        "bth": [(k, v) for k, v in sd.items() if k not in pnames and tail(k) == "theta_alpha"],
+        "bother": [(k, v) for k, v in sd.items() if k not in pnames and tail(k) not in BN + ("theta_alpha",)],
+    }
+    o: Dict[str, Any] = {g: ids.of(g, _hash_items(items)) for g, items in groups.items()}
+    o["keys"] = ids.of("keys", json.dumps(list(sd.keys())))
+    nbt = [int(v) for k, v in sd.items() if tail(k) == "num_batches_tracked"]
+    o["nbt"] = max(nbt) if nbt else 0
+    o["hasbn"] = bool(nbt)
+    flags = [bool(mod.training) for mod in m.modules()]
+    seedflags = [bool(mod.training) for mod in m.seed.modules()]
+    o["wt"] = bool(m.training)
+    o["st"] = "T" if all(seedflags) else "F" if not any(seedflags) else "mixed"
+    o["flags"] = ids.of("flags", json.dumps(flags))
+    o["rg"] = ids.of("rg", json.dumps([bool(p.requires_grad) for p in m.parameters()]))
+    o["theta"] = theta_class(kind, m)
+    o["cs"] = cs
+    # everything below executes code of the model: on faithful copies only.  Cost and summary first, on a copy
+    # that has NOT been forwarded (they must see the coefficients as they are stored right now).
+    c, dirty = safe_deepcopy(m)
+    o["dirty"] = dirty
+    o["fperr"] = ""
+
+    def guarded(what, fn, default):
+        # a cost / summary / forward that RAISES on the copied model is an observation (reported through fperr)
+        try:
+            with torch.no_grad():
+                return fn()
+        except MachineryError:
+            raise
+        except Exception as ex:
+            if not o["fperr"]:
+                o["fperr"] = f"{what}: {type(ex).__name__}: {str(ex)[:120]}"
+            return default
+
+    vals = guarded("cost", lambda: cost_values(c), [])
+    o["costv"] = _costv_ids(vals, ids)
+    o["cost"] = ids.of("cost", json.dumps(o["costv"]))
+    o["costfin"] = all(math.isfinite(v) and v >= 0 for v in vals)
+    o["sum"] = ids.of("sum", guarded("summary", lambda: json.dumps(jsonable(c.summary())), "raised"))
+    # output in the modes the model is in (after cost / summary were read), then in eval mode on a second copy
+    o["out"], o["outx"] = guarded("forward", lambda: ids.out(c(x)), (0, 0))
+    c2, _ = safe_deepcopy(m)
+    c2.eval()
+    o["oute"], o["outex"] = guarded("forward(eval)", lambda: ids.out(c2(x)), (0, 0))
+    torch.set_rng_state(rng0)
+    return o
+
+
+def apply_c18(kind: str, m, act: Dict[str, Any], xf: torch.Tensor, xp: torch.Tensor, ids: Ids) -> Dict[str, Any]:
+    """perform one abstract call on the live model; returns {ret, err, rngadv}"""
+    a = act["a"]
+    rng0 = torch.get_rng_state()
+    ret = dict(NO_RET)
+    err = ""
+    try:
+        if a == "export":
+            e = m.export(add_bn=False) if act.get("nobn") else m.export()
+            rng1 = torch.get_rng_state()
+            xf_ = export_fingerprint(e, xp, ids)
+            torch.set_rng_state(rng1)
+            ret = {"k": "export", "a": xf_["struct"], "b": xf_["sd"], "c": xf_["out"]}
+        elif a == "summary":
+            ret = {"k": "sum", "a": ids.of("sum", json.dumps(jsonable(m.summary()))), "b": 0, "c": 0}
+        elif a == "cost":
+            ret = {"k": "cost", "a": _costv_ids([float(m.cost.detach())], ids)[0], "b": 1, "c": 0}
+        elif a == "getcost":
+            ret = {"k": "cost", "a": _costv_ids([float(m.get_cost(act["n"]).detach())], ids)[0],
+                   "b": 1 if act["n"] == "a" else 2, "c": 0}
+        elif a == "setcs":
+            m.cost_specification = cost_spec(kind, act["c"])
+        elif a == "forward":
+            m(xf)
+        elif a == "mode":
+            m.train(bool(act["v"]))
+        else:
+            raise MachineryError(f"unknown call {act}")
+    except MachineryError:
+        raise
+    except Exception as ex:          # a call of the alphabet raising on a healthy model is an observation, not a crash
+        err = f"{type(ex).__name__}: {str(ex)[:160]}"
+    rngadv = not torch.equal(rng0, torch.get_rng_state())
+    if a in OBSERVER_OPS:
+        # the random stream is not part of what C18 compares (re-created layers are initialised randomly by export());
+        # it is restored so that the two runs stay comparable, and the fact is recorded
+        torch.set_rng_state(rng0)
+    return {"ret": ret, "err": err, "rngadv": bool(rngadv)}
+
+
+def _same_obs(a: Dict[str, Any], b: Dict[str, Any]) -> bool:
+    return all(a[k] == b[k] for k in a if k not in ("dirty",))
+
+
+def run_c18(sc: Dict[str, Any]) -> Dict[str, Any]:
+    """scenario {kind, variant, init{train, hard, cs, fc}, wseed, acts} -> trace for specs/ObserversTrace.tla"""
+    kind, variant, init, wseed = sc["kind"], sc["variant"], sc["init"], int(sc.get("wseed", 0))
+    ids = Ids()
+    m, x = build(kind, variant, init, wseed)
+    xf = x * 0.7 + 0.1
+    _settle(kind, m, xf, wseed)
+    cs = init.get("cs", "A")
+    o0 = observe(kind, m, x, ids, cs)
+    hasbn = bn_live(m, xf)
+    # erased run: a second object from the same factory; the harness must be deterministic
+    m2, _ = build(kind, variant, init, wseed)
+    _settle(kind, m2, xf, wseed)
+    r0 = observe(kind, m2, x, ids, cs)
+    if not _same_obs(o0, r0):
+        raise MachineryError(f"C18 harness: two constructions of the same scenario differ: "
+                             f"{ {k: (o0[k], r0[k]) for k in o0 if o0[k] != r0[k]} }")
+    # twins: the same model constructed directly with each other specification (reference for 'switching')
+    twins = []
+    for c in ("A", "B", "D"):
+        if c == cs:
+            continue
+        mt, _ = build(kind, variant, dict(init, cs=c), wseed)
+        _settle(kind, mt, xf, wseed)
+        ot = observe(kind, mt, x, ids, c)
+        if any(ot[k] != o0[k] for k in ("pnet", "pnas", "bbn", "bth", "bother", "out")):
+            raise MachineryError("C18 harness: twin with another cost specification differs in its core")
+        twins.append({"cs": c, "cost": ot["cost"], "costv": ot["costv"]})
+    ev = []
+    cs2 = cs
+    for act in sc["acts"]:
+        r = apply_c18(kind, m, act, xf, x, ids)
+        if act["a"] == "setcs" and not r["err"]:
+            cs = act["c"]
+        o = observe(kind, m, x, ids, cs)
+        e = {"act": dict({"nobn": False, "n": "-", "c": "-", "v": False}, **act), "obs": o, "ret": r["ret"],
+             "err": r["err"], "rngadv": r["rngadv"], "ref": {"has": False, "obs": o}}
+        if act["a"] not in OBSERVER_OPS:
+            r2 = apply_c18(kind, m2, act, xf, x, ids)
+            if act["a"] == "setcs" and not r2["err"]:
+                cs2 = act["c"]
+            e["ref"] = {"has": True, "obs": observe(kind, m2, x, ids, cs2)}
+            if r2["err"] != r["err"]:
+                e["err"] = e["err"] or ("(erased run) " + r2["err"])
+        ev.append(e)
+    return {"kind": kind, "variant": variant, "hard": bool(init.get("hard", False)), "fc": bool(init.get("fc", False)),
+            "hasbn": hasbn, "init": o0, "twins": twins, "ev": ev}
+
+
+# ----------------------------------------------------------------------------------------------
+# process pool
+# ----------------------------------------------------------------------------------------------
+def _init_worker():
+    torch.set_num_threads(1)
+
+
+def _run_one(job):
+    fn, sc = job
+    from .core import use_repo
+    use_repo()
+    try:
+        return globals()[fn](sc)
+    except MachineryError:
+        raise
+    except Exception:
+        import traceback
+        raise MachineryError("harness crashed on scenario " + json.dumps(sc, default=str)[:3000] + "\n"
+                             + traceback.format_exc(limit=8)) from None
+
+
+def run_pool(fn: str, scs: List[Dict[str, Any]], procs: int = 8) -> List[Dict[str, Any]]:
+    if not scs:
+        return []
+    jobs = [(fn, s) for s in scs]
+    if len(scs) < 4 or procs <= 1:
+        _init_worker()
+        return [_run_one(j) for j in jobs]
+    import multiprocessing as mp
+    from concurrent.futures import ProcessPoolExecutor
+    ctx = mp.get_context("fork")
+    with ProcessPoolExecutor(max_workers=procs, mp_context=ctx, initializer=_init_worker) as ex:
+        return list(ex.map(_run_one, jobs, chunksize=1))
+
+
+# ----------------------------------------------------------------------------------------------
+# C17: histories of a search, checkpoints, resume
+# ----------------------------------------------------------------------------------------------
+TEMPS = {1: 1.0, 2: 0.5, 3: 2.0}        # abstract temperature ids of specs/Checkpoint.tla -> values
+NORM_STEP = {"pit": 0.6, "mps": 0.8, "sn": 0.5}   # size of the largest coordinate move of an architectural step
+
+
+def is_config_call(kind: str, act: Dict[str, Any]) -> bool:
+    """calls that configure the wrapper (constructor-like arguments, option / trainability / mode calls): the user
+    re-applies them when the fresh wrapper is built.  MIRRORS Checkpoint!IsConfigCall (TLC checks the agreement on
+    every trace: the events carry the flag `replayed`)."""
+    a = act["a"]
+    if a in ("train", "mode"):
+        return True
+    if a == "opt":
+        return not (kind == "mps" and act["o"] == "temp")      # the MPS temperature is a buffer: persisted
+    return False
+
+
+def _groups_of(m) -> Dict[str, str]:
+    sd = m.state_dict()
+    nas = nas_names(m)
+    pnames = {n for n, _ in m.named_parameters()}
+    tail = lambda k: k.rsplit(".", 1)[-1]
+    BN = ("running_mean", "running_var", "num_batches_tracked")
+    out = {}
+    for k in sd:
+        if k in pnames:
+            out[k] = "pnas" if k in nas else "pnet"
+        elif tail(k) in BN:
+            out[k] = "bbn"
+        elif tail(k) == "theta_alpha":
+            out[k] = "bth"
+        elif tail(k) == "temperature":
+            out[k] = "btemp"
+        else:
+            out[k] = "bother"
+    return out
+
+
+GROUPS = ("pnet", "pnas", "bbn", "bth", "btemp", "bother")
+
+
+def group_ids(m, ids: Ids) -> Dict[str, int]:
+    sd = m.state_dict()
+    g = _groups_of(m)
+    return {grp: ids.of(grp, _hash_items((k, v) for k, v in sd.items() if g[k] == grp)) for grp in GROUPS}
+
+
+def _tensor_same(a: torch.Tensor, b: torch.Tensor) -> bool:
+    return a.shape == b.shape and a.dtype == b.dtype and bool(torch.equal(a, b) or
+                                                                (a.is_floating_point() and
+                                                                 bool(torch.equal(torch.nan_to_num(a), torch.nan_to_num(b)))
+                                                                 and bool(torch.equal(a.isnan(), b.isnan()))))
+
+
+def apply_c17(kind: str, m, act: Dict[str, Any], gen: torch.Generator, shape) -> str:
+    """one call of the history on the live model; returns "" or the exception text"""
+    a = act["a"]
+    try:
+        if a == "step":
+            g = act["g"]
+            xb = torch.randn((4,) + tuple(shape), generator=gen)
+            for p in m.parameters():
+                p.grad = None
+            out = m(xb)
+            cost = sum(m.get_cost(n) for n in sorted(m.cost_specification)) \
+                if isinstance(m.cost_specification, dict) else m.cost
+            loss = out.pow(2).mean() + 1e-3 * cost
+            if loss.requires_grad:
+                loss.backward()
+            nas = [p for p in m.nas_parameters() if isinstance(p, nn.Parameter)]
+            nasid = {id(p) for p in nas}
+            net = [p for p in m.parameters() if id(p) not in nasid]
+            if g in ("net", "all"):
+                ps = [p for p in net if p.requires_grad and p.grad is not None]
+                if ps:
+                    torch.optim.SGD(ps, lr=0.05).step()
+            if g in ("nas", "all"):
+                ps = [p for p in nas if p.requires_grad and p.grad is not None]
+                gmax = max([float(p.grad.abs().max()) for p in ps] + [0.0])
+                if ps and gmax > 0 and math.isfinite(gmax):
+                    # a real SGD step whose learning rate is chosen so that the most sensitive coefficient moves by
+                    # NORM_STEP (masks / arg-max really change within one or two steps)
+                    torch.optim.SGD(ps, lr=NORM_STEP[kind] / gmax).step()
+            for p in m.parameters():
+                p.grad = None
+        elif a == "opt":
+            o, v = act["o"], act["v"]
+            if kind == "pit":
+                if o == "dc":
+                    m.discrete_cost = bool(v)
+                elif o in ("train_features", "train_rf", "train_dilation"):
+                    setattr(m, o, bool(v))
+                else:
+                    raise MachineryError(f"option {o}")
+            elif o == "temp":
+                m.update_softmax_options(temperature=TEMPS[int(v)])
+            elif o == "hard":
+                m.update_softmax_options(hard=bool(v))
+            elif o == "disable" and kind == "mps":
+                m.update_softmax_options(disable_sampling=bool(v))
+            elif o == "gumbel" and kind == "mps":
+                m.update_softmax_options(gumbel=bool(v))
+            else:
+                raise MachineryError(f"option {o} for {kind}")
+        elif a == "train":
+            getattr(m, {"nas": "train_nas_only", "net": "train_net_only", "both": "train_net_and_nas"}[act["g"]])()
+        elif a == "mode":
+            m.train(bool(act["v"]))
+        elif a == "forward":
+            m(torch.randn((4,) + tuple(shape), generator=gen))
+        elif a == "observe":
+            # the observers of C18; their known side effect on the mode of the inner model (F16) is not C17's
+            # business and is neutralised by re-asserting the wrapper's mode
+            m.summary()
+            cost_values(m)
+            rng = torch.get_rng_state()
+            m.export()
+            torch.set_rng_state(rng)
+            m.train(m.training)
+        else:
+            raise MachineryError(f"unknown call {act}")
+    except MachineryError:
+        raise
+    except Exception as ex:
+        return f"{type(ex).__name__}: {str(ex)[:160]}"
+    return ""
+
+
+def _observe_pair(kind: str, o, r, x: torch.Tensor, ids: Ids, mode: bool, seed: int) -> Dict[str, Any]:
+    """the usual forward pass on both models in the given mode, then outputs / costs / summary of both"""
+    res: Dict[str, Any] = {"mode": bool(mode), "err_o": "", "err_r": ""}
+    vals = {}
+    for tag, m in (("o", o), ("r", r)):
+        try:
+            m.train(mode)
+            torch.manual_seed(seed)
+            y = m(x)
+            cl, ex = ids.out(y)
+            vals[tag] = {"out": cl, "outx": ex, "fin": bool(torch.isfinite(y).all()),
+                         "cost": ids.of("cost", json.dumps([v.hex() if math.isfinite(v) else str(v) for v in cost_values(m)])),
+                         "sum": ids.of("sum", json.dumps(jsonable(m.summary())))}
+        except MachineryError:
+            raise
+        except Exception as ex_:
+            res["err_" + tag] = f"{type(ex_).__name__}: {str(ex_)[:160]}"
+            vals[tag] = {"out": 0, "outx": 0, "fin": False, "cost": 0, "sum": 0}
+    res.update({"o": vals["o"], "r": vals["r"]})
+    return res
+
+
+def _export_pair(o, r, x: torch.Tensor, ids: Ids) -> Dict[str, Any]:
+    res: Dict[str, Any] = {"err_o": "", "err_r": ""}
+    none = {"struct": 0, "sd": 0, "out": 0}
+    for tag, m in (("o", o), ("r", r)):
+        try:
+            rng = torch.get_rng_state()
+            e = m.export()
+            torch.set_rng_state(rng)
+            f = export_fingerprint(e, x, ids)
+            res[tag] = {"struct": f["struct"], "sd": f["sd"], "out": f["out"]}
+            m.train(m.training)
+        except MachineryError:
+            raise
+        except Exception as ex_:
+            res["err_" + tag] = f"{type(ex_).__name__}: {str(ex_)[:160]}"
+            res[tag] = dict(none)
+    return res
+
+
+def checkpoint_test(kind: str, orig, sc: Dict[str, Any], hist: List[Dict[str, Any]], ck: Dict[str, Any],
+                    x: torch.Tensor, ids: Ids) -> Dict[str, Any]:
+    """Save orig's state_dict (through torch.save / torch.load), build a fresh wrapper of the same seed network with the
+    same constructor arguments, re-apply the configuration calls of the history, load, and compare the two models."""
+    import io
+    buf = io.BytesIO()
+    torch.save(orig.state_dict(), buf)
+    buf.seek(0)
+    ckpt = torch.load(buf, weights_only=True)
+    g_o = _groups_of(orig)
+    fresh, _ = build(kind, sc["variant"], sc["init"], int(sc.get("wseed", 0)))
+    shape = tuple(x.shape[1:])
+    cfg = [a for a in hist if is_config_call(kind, a)]
+    res: Dict[str, Any] = {"cfg_first": bool(ck.get("cfg_first", True)), "warm": bool(ck.get("warm", False)),
+                           "copy": bool(ck.get("copy", False)), "err": ""}
+    gen = torch.Generator().manual_seed(31337)
+    if res["warm"]:
+        # a wrapper that has already been used for a sanity batch (forward, cost, summary) before the checkpoint is loaded
+        fresh(torch.randn((4,) + shape, generator=gen))
+        cost_values(fresh)
+        fresh.summary()
+    if res["cfg_first"]:
+        for a in cfg:
+            e = apply_c17(kind, fresh, a, gen, shape)
+            if e:
+                res["err"] = res["err"] or f"re-applying {a} on the fresh wrapper: {e}"
+    # before loading: in which groups does the fresh wrapper differ from the checkpoint (non-triviality / prediction)
+    sd_f = fresh.state_dict()
+    res["keys_equal"] = list(sd_f.keys()) == list(ckpt.keys())
+    pre = {grp: True for grp in GROUPS}
+    for k, v in ckpt.items():
+        if k not in sd_f or not _tensor_same(sd_f[k].detach(), v):
+            pre[g_o.get(k, "bother")] = False
+    res["pre"] = pre
+    try:
+        lr = fresh.load_state_dict(ckpt, strict=False)
+        res["missing"], res["unexpected"] = list(lr.missing_keys), list(lr.unexpected_keys)
+    except Exception as ex:
+        res["missing"], res["unexpected"] = [], []
+        res["err"] = res["err"] or f"load_state_dict: {type(ex).__name__}: {str(ex)[:200]}"
+    if not res["cfg_first"]:
+        for a in cfg:
+            e = apply_c17(kind, fresh, a, gen, shape)
+            if e:
+                res["err"] = res["err"] or f"re-applying {a} on the restored wrapper: {e}"
+    # the restored state_dict IS the checkpoint (values, shapes and dtypes)
+    sd_r = fresh.state_dict()
+    bad = [k for k, v in ckpt.items() if k not in sd_r or not _tensor_same(sd_r[k].detach(), v)]
+    res["sd_equal"] = not bad
+    res["sd_diff"] = [f"{k}[{g_o.get(k, '?')}]" for k in bad[:4]]
+    # observations: current mode first, then the other mode; then the exported networks
+    cur = bool(orig.training)
+    res["obs"] = [_observe_pair(kind, orig, fresh, x, ids, md, 4242) for md in (cur, not cur)]
+    orig.train(cur)
+    fresh.train(cur)
+    res["exp"] = _export_pair(orig, fresh, x, ids)
+    sd_o, sd_r = orig.state_dict(), fresh.state_dict()
+    res["final_sd_equal"] = list(sd_o.keys()) == list(sd_r.keys()) and \
+        all(_tensor_same(sd_o[k].detach(), sd_r[k].detach()) for k in sd_o)
+    return res
+
+
+def run_c17(sc: Dict[str, Any]) -> Dict[str, Any]:
+    """scenario {kind, variant, init, wseed, acts, cks: [{at, cfg_first, warm}]} -> trace for CheckpointTrace.tla.
+    A checkpoint with at = len(acts) is taken on the original object itself; earlier ones on a faithful deep copy (so
+    that the history can go on undisturbed)."""
+    kind, variant, init, wseed = sc["kind"], sc["variant"], sc["init"], int(sc.get("wseed", 0))
+    ids = Ids()
+    m, x = build(kind, variant, init, wseed)
+    shape = tuple(x.shape[1:])
+    gen = torch.Generator().manual_seed(7000 + wseed)
+    g0 = group_ids(m, ids)
+    hasbn = bn_live(m, x)
+    cks = sorted(sc.get("cks", []), key=lambda c: c["at"])
+    ev: List[Dict[str, Any]] = []
+    hist: List[Dict[str, Any]] = []
+
+    def do_cks(at: int):
+        for ck in cks:
+            if ck["at"] != at:
+                continue
+            last = at == len(sc["acts"])
+            if last:
+                target = m
+            else:
+                target, _ = safe_deepcopy(m)
+            r = checkpoint_test(kind, target, sc, hist, dict(ck, copy=not last), x, ids)
+            ev.append({"act": {"a": "ckpt", "g": "-", "o": "-", "v": 0}, "replayed": False, "err": "", "g": group_ids(target, ids),
+                       "ck": r})
+
+    do_cks(0)
+    for i, act in enumerate(sc["acts"], start=1):
+        err = apply_c17(kind, m, act, gen, shape)
+        hist.append(act)
+        ev.append({"act": dict({"g": "-", "o": "-", "v": 0}, **{k: (int(v) if isinstance(v, bool) else v) for k, v in act.items()}),
+                   "replayed": is_config_call(kind, act), "err": err, "g": group_ids(m, ids), "ck": None})
+        do_cks(i)
+    nock = {"cfg_first": True, "warm": False, "copy": False, "err": "", "keys_equal": True,
+            "pre": {g: True for g in GROUPS}, "missing": [], "unexpected": [], "sd_equal": True, "sd_diff": [],
+            "obs": [], "exp": {"err_o": "", "err_r": "", "o": {"struct": 0, "sd": 0, "out": 0}, "r": {"struct": 0, "sd": 0, "out": 0}},
+            "final_sd_equal": True}
+    for e in ev:
+        if e["ck"] is None:
+            e["ck"] = nock
+    return {"kind": kind, "variant": variant,
+            "init": {"train": bool(init.get("train", True)), "hard": bool(init.get("hard", False)),
+                     "disable": bool(init.get("disable", False)), "gumbel": bool(init.get("gumbel", False)),
+                     "dc": bool(init.get("dc", False))},
+            "hasbn": hasbn, "g0": g0, "ev": ev}
